@@ -1,6 +1,7 @@
-(* C19/ProofsRefute.v -- concrete witnesses: each of the two input clauses of `input_ok` that
-   correspond to a recorded finding is necessary.  The witness programs are the known-finding
-   witnesses that the harness replays on the real allocator (known_findings.d/C19.json). *)
+(* C19/ProofsRefute.v -- concrete witnesses: the allocator as it was BEFORE the repairs d11e3b9 /
+   26a8b63 (`allocate_func_old`) put two live values into one register on inputs that satisfy every
+   hypothesis of the theorems; the repaired model separates them.  The witness programs are the
+   (now fixed) known-finding witnesses that the harness replays on the real allocator. *)
 From Coq Require Import ZArith List Bool Arith Lia.
 From XV Require Import C19.Model C19.ProofsSpec C19.ProofsStack C19.ProofsStep.
 Import ListNotations.
@@ -89,38 +90,47 @@ Proof.
   intros v w r Hv Hw. rewrite (Honly v r Hv), (Honly w r Hw). reflexivity.
 Qed.
 
-Lemma kf1_run : match allocate_func true [] true kf1_fn with
+Lemma kf1_run : match allocate_func_old true [] true kf1_pre kf1_ops with
                 | Ok af => ty af 0%nat = Some (-1) /\ ty af 1%nat = Some (-1)
                 | Err _ => False end.
 Proof. vm_compute. split; reflexivity. Qed.
+Lemma kf1_run_new : match allocate_func true [] true kf1_fn with
+                    | Ok af => ty af 0%nat = Some (-1) /\ ty af 1%nat = Some (-2)
+                    | Err _ => False end.
+Proof. vm_compute. split; reflexivity. Qed.
 
-Theorem infinite_preassigned_refuted :
+Lemma kf1_input : input_ok true [] kf1_fn.
+Proof.
+  split.
+  - intros _. split; [intros []|]. intros v Hv. unfold ty0 in Hv. simpl in Hv.
+    destruct v as [|[|[|v]]]; simpl in Hv; try discriminate. destruct v; discriminate.
+  - intros q [].
+Qed.
+
+Theorem infinite_preassigned_old_refuted :
   exists zr pool allow pre sl af p s v1 v2 r,
     let fn := mkFunc pre (map Simple sl) in
-    wf_prog sl /\ io_ok sl /\ forced_ok (ty0 fn) sl
-    /\ (forall v q, ty0 fn v = Some q -> In q pool -> In q (used_registers fn))
-    /\ (zr = true -> ~ In 0 pool /\ forall v, ty0 fn v <> Some 0)
-    /\ (forall q, In q pool -> 0 <= q)
-    /\ allocate_func zr pool allow fn = Ok af
+    input_ok zr pool fn /\ wf_prog sl /\ io_ok sl /\ forced_ok (ty0 fn) sl
+    /\ allocate_func_old zr pool allow pre sl = Ok af
     /\ sl = p ++ s /\ live s v1 /\ live s v2 /\ v1 <> v2
-    /\ ty af v1 = Some r /\ ty af v2 = Some r /\ r <> 0.
+    /\ ty af v1 = Some r /\ ty af v2 = Some r /\ r <> 0
+    /\ match allocate_func zr pool allow fn with          (* the repaired allocator *)
+       | Ok af' => ty af' v1 <> ty af' v2 | Err _ => False end.
 Proof.
-  pose proof kf1_run as Hrun.
-  destruct (allocate_func true [] true kf1_fn) as [af|e] eqn:E; [|contradiction].
+  pose proof kf1_run as Hrun. pose proof kf1_run_new as Hnew.
+  destruct (allocate_func_old true [] true kf1_pre kf1_ops) as [af|e] eqn:E; [|contradiction].
   destruct Hrun as [H0 H1].
   exists true, [], true, kf1_pre, kf1_ops, af,
          [mkSop [] [0%nat] [] KOther true; mkSop [] [1%nat] [] KOther true],
          [mkSop [0%nat; 1%nat] [2%nat] [] KOther true; mkSop [2%nat] [] [] KOther true],
          0%nat, 1%nat, (-1).
-  simpl. split; [exact kf1_wf|]. split; [exact (io_ok_no_ties _ kf1_no_ties)|].
-  split; [exact kf1_forced|]. split; [intros v q _ []|].
-  split.
-  { intros _. split; [intros []|]. intros v Hv. unfold ty0 in Hv. simpl in Hv.
-    destruct v as [|[|[|v]]]; simpl in Hv; try discriminate. destruct v; discriminate. }
-  split; [intros q []|]. split; [exact E|]. split; [reflexivity|].
+  cbv zeta. split; [exact kf1_input|]. split; [exact kf1_wf|]. split; [exact (io_ok_no_ties _ kf1_no_ties)|].
+  split; [exact kf1_forced|]. split; [exact E|]. split; [reflexivity|].
   split. { split; [exists (mkSop [0%nat; 1%nat] [2%nat] [] KOther true); split; [left; reflexivity | left; reflexivity] | no_def]. }
   split. { split; [exists (mkSop [0%nat; 1%nat] [2%nat] [] KOther true); split; [left; reflexivity | right; left; reflexivity] | no_def]. }
-  split; [discriminate|]. split; [exact H0|]. split; [exact H1 | lia].
+  split; [discriminate|]. split; [exact H0|]. split; [exact H1|]. split; [lia|].
+  fold kf1_fn. destruct (allocate_func true [] true kf1_fn) as [af'|e']; [|contradiction].
+  destruct Hnew as [N0 N1]. rewrite N0, N1. discriminate.
 Qed.
 
 (* ---- C19-kf-2: a pre-assigned allocatable register that allocate_func does not exclude ---- *)
@@ -153,42 +163,44 @@ Proof.
   intros v w r Hv Hw. rewrite (Honly v r Hv), (Honly w r Hw). reflexivity.
 Qed.
 
-Lemma kf2_run : match allocate_func true [6; 5] false kf2_fn with
+Lemma kf2_run : match allocate_func_old true [6; 5] false kf2_pre kf2_ops with
                 | Ok af => ty af 0%nat = Some 5 /\ ty af 1%nat = Some 5
                 | Err _ => False end.
 Proof. vm_compute. split; reflexivity. Qed.
+Lemma kf2_run_new : allocate_func true [6; 5] false kf2_fn = Err OutOfRegisters.
+Proof. vm_compute. reflexivity. Qed.
 
-Theorem unexcluded_preassigned_refuted :
+Lemma kf2_input : input_ok true [6; 5] kf2_fn.
+Proof.
+  split.
+  - intros _. split; [simpl; intuition lia|]. intros v Hv. unfold ty0 in Hv. simpl in Hv.
+    destruct v as [|[|[|[|v]]]]; simpl in Hv; try discriminate. destruct v; discriminate.
+  - intros q Hq. simpl in Hq. intuition lia.
+Qed.
+
+Theorem unexcluded_preassigned_old_refuted :
   exists zr pool allow pre sl af p s v1 v2 r,
     let fn := mkFunc pre (map Simple sl) in
-    wf_prog sl /\ io_ok sl /\ forced_ok (ty0 fn) sl
-    /\ (forall v q, ty0 fn v = Some q -> 0 <= q)
-    /\ (zr = true -> ~ In 0 pool /\ forall v, ty0 fn v <> Some 0)
-    /\ (forall q, In q pool -> 0 <= q)
-    /\ allocate_func zr pool allow fn = Ok af
+    input_ok zr pool fn /\ wf_prog sl /\ io_ok sl /\ forced_ok (ty0 fn) sl
+    /\ allocate_func_old zr pool allow pre sl = Ok af
     /\ sl = p ++ s /\ live s v1 /\ live s v2 /\ v1 <> v2
-    /\ ty af v1 = Some r /\ ty af v2 = Some r /\ r <> 0.
+    /\ ty af v1 = Some r /\ ty af v2 = Some r /\ r <> 0
+    (* the repaired allocator: t0 is excluded, one register is not enough, explicit failure *)
+    /\ allocate_func zr pool allow fn = Err OutOfRegisters.
 Proof.
   pose proof kf2_run as Hrun.
-  destruct (allocate_func true [6; 5] false kf2_fn) as [af|e] eqn:E; [|contradiction].
+  destruct (allocate_func_old true [6; 5] false kf2_pre kf2_ops) as [af|e] eqn:E; [|contradiction].
   destruct Hrun as [H0 H1].
   exists true, [6; 5], false, kf2_pre, kf2_ops, af,
          [mkSop [] [0%nat] [] KOther true; mkSop [] [1%nat] [] KOther true],
          [mkSop [1%nat] [2%nat] [] KOther false;
           mkSop [0%nat; 0%nat] [3%nat] [] KOther true; mkSop [3%nat] [] [] KOther true],
          0%nat, 1%nat, 5.
-  simpl. split; [exact kf2_wf|]. split; [exact (io_ok_no_ties _ kf2_no_ties)|].
-  split; [exact kf2_forced|].
-  split.
-  { intros v q Hv. unfold ty0 in Hv. simpl in Hv.
-    destruct v as [|[|[|[|v]]]]; simpl in Hv; try discriminate; [inversion Hv; lia | destruct v; discriminate]. }
-  split.
-  { intros _. split; [simpl; intuition lia|]. intros v Hv. unfold ty0 in Hv. simpl in Hv.
-    destruct v as [|[|[|[|v]]]]; simpl in Hv; try discriminate. destruct v; discriminate. }
-  split; [intros q Hq; simpl in Hq; intuition lia|]. split; [exact E|]. split; [reflexivity|].
+  cbv zeta. split; [exact kf2_input|]. split; [exact kf2_wf|]. split; [exact (io_ok_no_ties _ kf2_no_ties)|].
+  split; [exact kf2_forced|]. split; [exact E|]. split; [reflexivity|].
   split. { split; [exists (mkSop [0%nat; 0%nat] [3%nat] [] KOther true); split; [right; left; reflexivity | left; reflexivity] | no_def]. }
   split. { split; [exists (mkSop [1%nat] [2%nat] [] KOther false); split; [left; reflexivity | left; reflexivity] | no_def]. }
-  split; [discriminate|]. split; [exact H0|]. split; [exact H1 | lia].
+  split; [discriminate|]. split; [exact H0|]. split; [exact H1|]. split; [lia | exact kf2_run_new].
 Qed.
 
 (* ---- the hypotheses of the theorems are satisfiable by a non-trivial program ---- *)
@@ -227,9 +239,7 @@ Qed.
 
 Lemma ok_input : input_ok true [10; 6; 5] ok_fn.
 Proof.
-  split; [|split; [|split]].
-  - intros v r H. destruct (ok_only v r H) as [_ Hr]. lia.
-  - intros v r H _. destruct (ok_only v r H) as [_ Hr]. subst r. vm_compute. left. reflexivity.
+  split.
   - intros _. split; [simpl; intuition lia|]. intros v H. destruct (ok_only v 0 H) as [_ Hr]. lia.
   - intros r H. simpl in H. intuition lia.
 Qed.
